@@ -3,6 +3,7 @@ import Csverif.Driver.Storage
 import Csverif.Driver.Runnable
 import Csverif.Driver.Monitor
 import Csverif.Driver.Sched
+import Csverif.Driver.HCache
 /- Driver: `driver <layer>` reads one operation per line on stdin and prints one canonical
    line per operation.  It executes the very definitions the theorems are about. -/
 open CS
@@ -33,5 +34,6 @@ def main (args : List String) : IO UInt32 := do
   | ["proto"] => loopState stdin stdout Driver.Runnable.pInit Driver.Runnable.stepProto; stdout.flush; return 0
   | ["monitor"] => loopStateless stdin stdout Driver.Monitor.step; stdout.flush; return 0
   | ["sched"] => loopState stdin stdout ({} : Driver.Sched.DSt) Driver.Sched.step; stdout.flush; return 0
+  | ["hcache"] => loopState stdin stdout Driver.HCache.St.init Driver.HCache.step; stdout.flush; return 0
   | ["reach"] => IO.println (toString Runnable.reachableCodes); return 0
   | _ => IO.eprintln "usage: driver <layer>"; return 2
